@@ -84,6 +84,8 @@ pub struct Xres {
     pub exit: Option<ExitStatus>,
     pub overflow: bool,
     pub short_fired: u32,
+    /// (pid, state) of every process forked by the exchange, sampled at the moment the communicate call(s) returned
+    pub at_return: Vec<(i32, Option<char>)>,
 }
 
 impl Xres {
@@ -154,7 +156,7 @@ pub fn exchange(ctx: &mut Ctx, cfg: &Xcfg) -> Xres {
     let rep: PathBuf = dir.join("rep");
     let mut res = Xres {
         reads: vec![], cert: None, panic: None, hard_timeout: false, budget_hit: false, events: vec![], report: vec![], launch_error: None,
-        fds: (-1, -1, -1), exit: None, overflow: false, short_fired: 0,
+        fds: (-1, -1, -1), exit: None, overflow: false, short_fired: 0, at_return: vec![],
     };
     plan::seed(cfg.seed ^ 0x5555);
     let mut short_rules = vec![];
@@ -226,6 +228,7 @@ pub fn exchange(ctx: &mut Ctx, cfg: &Xcfg) -> Xres {
                                 break;
                             }
                         }
+                        mark_at_return(&mut res);
                         drop(comm);
                     }
                     Some(Err(e)) => res.launch_error = Some(e.to_string()),
@@ -289,6 +292,7 @@ pub fn exchange(ctx: &mut Ctx, cfg: &Xcfg) -> Xres {
                                 break;
                             }
                         }
+                        mark_at_return(&mut res);
                         drop(comm);
                     }
                     Some(Err(e)) => res.launch_error = Some(e.to_string()),
@@ -365,6 +369,7 @@ pub fn exchange(ctx: &mut Ctx, cfg: &Xcfg) -> Xres {
                             drop(comm);
                         }
                     }
+                    mark_at_return(&mut res);
                     vclock::disable();
                     plan::OPS_BUDGET.store(-1, std::sync::atomic::Ordering::SeqCst);
                     // release whatever the library did not consume, then learn the exit status without risking a hang
@@ -416,6 +421,16 @@ pub fn exchange(ctx: &mut Ctx, cfg: &Xcfg) -> Xres {
     }
     run::end_case();
     res
+}
+
+fn mark_at_return(res: &mut Xres) {
+    if !res.at_return.is_empty() {
+        return;
+    }
+    let evs = ilog::snapshot();
+    for pid in crate::spawn::forked_pids(&evs) {
+        res.at_return.push((pid, crate::inspect::proc_state(pid)));
+    }
 }
 
 fn absorb<T>(res: &mut Xres, m: &run::Monitored<T>) {
